@@ -112,8 +112,8 @@ func genSynJobs(rng *rand.Rand, n int, prefix string, f synFilter) []*SynJob {
 		if f.nonEmpty && !model.NewSentenceGen(j.CFG).HasSentence() {
 			continue
 		}
-		if f.withErrors && !g.HasErrorAlts() {
-			continue
+		if f.withErrors != g.HasErrorAlts() {
+			continue // error alternatives exactly when the campaign asks for them (C02/C05/C06 exclude them, C07 requires them)
 		}
 		jobs = append(jobs, j)
 	}
